@@ -145,7 +145,8 @@ def run(repo, rep):
         f = fns[k]
         if '.extras' in f.module.name:
             continue
-        for lp in _own_loops(f.node):
+        from engine.astutil import expand_ifexp
+        for lp in _own_loops(expand_ifexp(f.node)):
             if isinstance(lp, ast.While):
                 n += 1
                 kind, why = _classify_while(lp, f)
@@ -181,11 +182,11 @@ def run(repo, rep):
             ev = f
     if ev is None:
         raise AnalysisError('string printer has no layout-time evaluator')
-    calls = [c for c in ast.walk(ev.node) if isinstance(c, ast.Call) and call_name(c) == 'str_to_lines']
+    from engine.astutil import bind_args
+    calls = [c for c in ast.walk(ps.node) if isinstance(c, ast.Call) and call_name(c) == 'str_to_lines']
     defs = {k_: v[0] for k_, v in single_defs(ev.node).items() if len(v) == 1}
     for c in calls:
-        kw = {k_.arg: k_.value for k_ in c.keywords}
-        ml = kw.get('max_len', c.args[0] if c.args else None)
+        ml = bind_args(c, m.funcs['str_to_lines']).get('max_len')
         n += 1
         lb = None
         try:
